@@ -524,7 +524,7 @@ def gen_toplevel_history(rng):
         elif r < 0.94:
             was = pend; t = toks()
             emit(("%s %s" % (rng.choice(["tpush", "tread", "twait"]), " ".join(t))).strip())
-            if inst_refs == 0: pend = was or pend       # the terminal may be gone: conservative
+            pend = was or pend       # skipped when the application has dropped its own reference to the terminal: conservative
         elif r < 0.96: emit("tcheck")
         elif r < 0.98: emit("key")
         else: drop_inst()
